@@ -3,11 +3,15 @@
 
   Spec:   CC/Spec/Load.lean   (notations, documented kinds and their meaning, documents)
   Model:  CC/Model/Load.lean  (mirrors loaders.py / dump_load.py / Circuit/dump_load.py as they
-          are; tables generated into CC/Gen/LoadTables.lean on every run)
+          are; tables and the copy / in-place structure generated into CC/Gen/LoadTables.lean
+          on every run)
 
-  The current code violates four clauses of the property; per DESIGN §3.4 each full statement
-  stays visible as a `def …_statement : Prop`, its negation is proved with a concrete witness
-  (`…_counterexample`), and the strongest true restriction is proved (`…_partial`).
+  History: until the fix commits b501fa0 (entry copy), cd8d9e4 (local phase), 00005ff
+  (admittance `pop`), 2481879 (dump_load rewrite), b379006 (circuit files convert complex
+  notations) four clauses were false of the code and this file carried counterexample
+  theorems.  The model follows the repaired code; every clause is now proved at full
+  strength.  Reverting a fix changes CC/Gen/LoadTables.lean (or the correspondence) and the
+  theorem that rests on it stops compiling.
 -/
 import CC.Model.Load
 import CC.Spec.Load
@@ -17,7 +21,8 @@ open CC.Load CC.Gen.Load CC.Spec.Load
 
 /-! ## Complex notations -/
 
-/-- Both notations are read as the number they denote (no degree option). -/
+/-- Both notations are read as the number they denote — with or without the degree option
+for the Cartesian one, without it for the polar one. -/
 theorem C17_polar_cartesian (T : Trig) (n : CxNote) :
     (toComplex T n.tree false).1 = .ok (n.denote T) := by
   cases n <;>
@@ -37,8 +42,8 @@ theorem C17_degree_radian (T : Trig) (r p : Rat) :
       = (toComplex T (CxNote.polar r (T.rad p)).tree false).1 := by
   simp [CxNote.tree, toComplex, cartesian?, polar?, pyComplex, J.asCx, Obj.find, Obj.put]
 
-/-- The generic conversion of dump_load.py reads the three documented notations as the
-same numbers (`abs ≥ 0` is what that function demands). -/
+/-- The generic conversion of dump_load.py (`_complex_from_notation`) reads the three documented
+notations as the same numbers (`abs ≥ 0` is what that function demands). -/
 theorem C17_undictify_notations (T : Trig) (a b r p : Rat) (hr : ¬ r < 0) :
     undictifyValue T (CxNote.cart a b).tree = .ok (some (.cx ⟨a, b⟩)) ∧
     undictifyValue T (CxNote.polar r p).tree = .ok (some (.cx ((CxNote.polar r p).denote T))) ∧
@@ -50,33 +55,24 @@ theorem C17_undictify_notations (T : Trig) (a b r p : Rat) (hr : ¬ r < 0) :
 
 /-! ## Every documented kind loads into exactly what was written -/
 
-/-- Full statement: *every* valid description over the documented kinds loads into the
-intended branches.  False of the current code (`C17_faithful_counterexample`). -/
-def C17_faithful_statement : Prop :=
-  ∀ (T : Trig) (ps : List Placed), ValidDescription ps →
-    (loadNetwork T (.arr (ps.map Placed.tree))).1 = .ok (ps.map (Placed.intended T))
-
-/-- what `entry_to_branch` leaves of the caller's entry: the value fields and a new key -/
-def Spec.Load.Placed.leftover (p : Placed) : J := .obj (p.e.fields ++ [("name", .str p.id)])
-
 /-- unfold the loader model on a concrete entry -/
 macro "load_simp" : tactic => `(tactic|
-  simp [Placed.tree, Placed.intended, Placed.leftover, NetEntry.tree, NetEntry.intended, NetEntry.fields, NetEntry.kind,
-    optField, CxNote.tree, CxNote.denote,
+  simp [Placed.tree, Placed.intended, NetEntry.tree, NetEntry.intended, NetEntry.fields, NetEntry.kind,
+    optField, CxNote.tree, CxNote.denote, pyDict,
     entryToBranch, entryToBranchObj, entryRead, entryReads, entryCopied, Obj.read, Obj.find, Obj.del, Obj.put,
     networkBranchTranslators, applyLoader, elementFactories, evalCxArgs, toComplex, cartesian?, polar?, pyComplex, J.asCx,
     translateToComplex, callElemFactory, bindArgs, bindParams, dupKeys, Obj.has, Src.eval, cart_value, polar_value])
 
-/-- one entry of any documented kind but `admittance`: the branch is the intended one —
-and the entry has lost `type`, `id`, `N1`, `N2` and gained `name` -/
-theorem Load.entryToBranch_faithful (T : Trig) (p : Placed) (hk : p.e.kind ≠ "admittance") :
-    entryToBranch T p.tree = (.ok (p.intended T), p.leftover) := by
+/-- one entry of any documented kind: the branch is the intended one, and the entry is left
+as it was -/
+theorem Load.entryToBranch_faithful (T : Trig) (p : Placed) :
+    entryToBranch T p.tree = (.ok (p.intended T), p.tree) := by
   obtain ⟨e, id, n1, n2⟩ := p
   cases e with
-  | admittance Y => exact absurd rfl hk
   | resistor R => load_simp
   | conductor G => load_simp
   | impedance Z => cases Z <;> load_simp
+  | admittance Y => cases Y <;> load_simp
   | linearCurrentSource I Y => cases I <;> cases Y <;> load_simp
   | currentSource I => cases I <;> load_simp
   | realCurrentSource I Y => cases Y <;> load_simp
@@ -93,14 +89,11 @@ theorem Load.intended_n2 (T : Trig) (p : Placed) : (p.intended T).n2 = .str p.n2
 theorem Load.intended_name (T : Trig) (p : Placed) : (p.intended T).name = .str p.id := by
   obtain ⟨e, id, n1, n2⟩ := p; cases e <;> rfl
 
-theorem Load.loadEntries_faithful (T : Trig) (ps : List Placed) (hk : ∀ p ∈ ps, p.e.kind ≠ "admittance") :
-    loadEntries T (ps.map Placed.tree) = (.ok (ps.map (Placed.intended T)), ps.map Placed.leftover) := by
+theorem Load.loadEntries_faithful (T : Trig) (ps : List Placed) :
+    loadEntries T (ps.map Placed.tree) = (.ok (ps.map (Placed.intended T)), ps.map Placed.tree) := by
   induction ps with
   | nil => simp [loadEntries]
-  | cons p r ih =>
-    have h1 := entryToBranch_faithful T p (hk p (by simp))
-    have h2 := ih (fun q hq => hk q (by simp [hq]))
-    simp [loadEntries, h1, h2]
+  | cons p r ih => simp [loadEntries, entryToBranch_faithful T p, ih]
 
 theorem Load.checkLoaded_valid (T : Trig) (ps : List Placed) (hv : ValidDescription ps) :
     checkLoaded (ps.map (Placed.intended T)) = .ok (ps.map (Placed.intended T)) := by
@@ -123,38 +116,17 @@ theorem Load.checkLoaded_valid (T : Trig) (ps : List Placed) (hv : ValidDescript
   simp only [hground, hlen]
   simp
 
-/-- **C17_faithful (restriction).**  Every valid description — any number of entries, every
-documented kind except `admittance`, every identifier, terminals and value, complex values
-in either notation — loads into exactly the intended branches, in order. -/
-theorem C17_faithful_partial (T : Trig) (ps : List Placed) (hv : ValidDescription ps)
-    (hk : ∀ p ∈ ps, p.e.kind ≠ "admittance") :
+/-- **C17_faithful.**  Every valid description — any number of entries, *every* documented kind
+(`admittance` included), every identifier, terminals and value, complex values in either
+notation — loads into exactly the intended branches, in order. -/
+theorem C17_faithful (T : Trig) (ps : List Placed) (hv : ValidDescription ps) :
     (loadNetwork T (.arr (ps.map Placed.tree))).1 = .ok (ps.map (Placed.intended T)) := by
-  simp [loadNetwork, loadEntries_faithful T ps hk, checkLoaded_valid T ps hv]
+  simp [loadNetwork, loadSeq, loadEntries_faithful T ps, checkLoaded_valid T ps hv]
 
-/-- non-vacuity: a two-entry description with a polar impedance meets the hypotheses -/
-example : ValidDescription [⟨.impedance (.polar 2 (1/2)), "Z", "0", "1"⟩, ⟨.resistor (.num 5), "R1", "1", "0"⟩] := by
+/-- non-vacuity: a description with a polar impedance, an admittance and a resistor -/
+example : ValidDescription [⟨.impedance (.polar 2 (1/2)), "Z", "0", "1"⟩, ⟨.admittance (.cart 1 2), "Y1", "1", "0"⟩,
+    ⟨.resistor (.num 5), "R1", "1", "0"⟩] := by
   refine ⟨Or.inr ⟨_, List.mem_cons_self .., Or.inl rfl⟩, by decide⟩
-
-/-- Every admittance entry, whatever its value, identifier and terminals: `TypeError`. -/
-theorem C17_admittance_always_fails (T : Trig) (Y : CxNote) (id n1 n2 : String) :
-    (loadNetwork T (.arr [(NetEntry.admittance Y).tree id n1 n2])).1 = .error .typeError := by
-  cases Y <;>
-  simp [loadNetwork, loadEntries, mapLoadErr, loadCaught, errOfName, NetEntry.tree, NetEntry.fields, NetEntry.kind,
-    CxNote.tree, entryToBranch, entryToBranchObj, entryRead, entryReads, entryCopied, Obj.read, Obj.find, Obj.del, Obj.put,
-    networkBranchTranslators, applyLoader, elementFactories, evalCxArgs, toComplex, cartesian?, polar?, pyComplex, J.asCx,
-    translateToComplex, callElemFactory, bindArgs, bindParams, dupKeys, Obj.has]
-
-/-- The `admittance` kind never loads: the table entry reads `Y` with `kwargs['Y']` and then
-forwards `**kwargs`, so the factory receives `Y` twice (`TypeError`). -/
-theorem C17_faithful_counterexample : ¬ C17_faithful_statement := by
-  intro h
-  have h1 := h ⟨fun _ => 1, fun _ => 0, fun _ => 0, fun _ => 0⟩ [⟨.admittance (.cart 1 2), "Y1", "1", "0"⟩]
-    ⟨Or.inr ⟨_, List.mem_cons_self .., Or.inr rfl⟩, by decide⟩
-  have h2 := C17_admittance_always_fails ⟨fun _ => 1, fun _ => 0, fun _ => 0, fun _ => 0⟩ (.cart 1 2) "Y1" "1" "0"
-  simp only [List.map, Placed.tree] at h1
-  rw [h2] at h1
-  cases h1
-
 
 /-! ## The generated tables -/
 
@@ -178,16 +150,8 @@ theorem C17_table_total :
     (networkBranchTranslators.map (·.kind)).Nodup := by
   decide
 
-def C17_table_wellformed_statement : Prop :=
-  ∀ L ∈ networkBranchTranslators, L.wellFormed = true
-
-/-- Every entry but `admittance` passes keyword names that match its factory. -/
-theorem C17_table_wellformed_partial :
-    ∀ L ∈ networkBranchTranslators, L.kind ≠ "admittance" → L.wellFormed = true := by
-  decide
-
-theorem C17_table_wellformed_counterexample : ¬ C17_table_wellformed_statement := by
-  unfold C17_table_wellformed_statement
+/-- Every entry passes keyword names that match its factory and forwards none twice. -/
+theorem C17_table_wellformed : ∀ L ∈ networkBranchTranslators, L.wellFormed = true := by
   decide
 
 /-- The circuit table: documented kinds = table kinds, every kind is built by the
@@ -201,99 +165,57 @@ theorem C17_circuit_table_total :
 
 /-! ## Loading never mutates the description -/
 
-def C17_pure_statement : Prop :=
-  (∀ (T : Trig) (d : J), (loadNetwork T d).2 = d) ∧ (∀ (T : Trig) (z : J) (deg : Bool), (toComplex T z deg).2 = z)
+theorem Load.entryToBranch_post (T : Trig) (e : J) : (entryToBranch T e).2 = e := by
+  simp only [entryToBranch, entryCopied, if_true]
+  split <;> rfl
 
-/-- Without the degree option `to_complex` leaves its argument alone — for every value. -/
-theorem C17_toComplex_pure_partial (T : Trig) (z : J) : (toComplex T z false).2 = z := by
+theorem Load.loadEntries_post (T : Trig) (es : List J) : (loadEntries T es).2 = es := by
+  induction es with
+  | nil => simp [loadEntries]
+  | cons e r ih =>
+    have he := entryToBranch_post T e
+    unfold loadEntries
+    generalize entryToBranch T e = x at he
+    obtain ⟨x1, x2⟩ := x
+    simp only at he; subst he
+    cases x1 with
+    | error a => simp
+    | ok b =>
+      generalize loadEntries T r = y at ih
+      obtain ⟨y1, y2⟩ := y
+      simp only at ih; subst ih
+      cases y1 <;> simp
+
+/-- Without or with the degree option `to_complex` leaves its argument alone — every value. -/
+theorem C17_toComplex_pure (T : Trig) (z : J) (deg : Bool) : (toComplex T z deg).2 = z := by
   unfold toComplex
   cases z <;> simp
-  split <;> simp
+  split
+  · rfl
+  · split
+    · split <;> simp [degreeInPlace]
+    · rfl
 
-/-- With the degree option the caller's `phase` is overwritten by `phase·π/180`. -/
-theorem C17_toComplex_pure_counterexample (T : Trig) (r p : Rat) (h : T.rad p ≠ p) :
-    (toComplex T (CxNote.polar r p).tree true).2 = (CxNote.polar r (T.rad p)).tree ∧
-    (toComplex T (CxNote.polar r p).tree true).2 ≠ (CxNote.polar r p).tree := by
-  have h1 : (toComplex T (CxNote.polar r p).tree true).2 = (CxNote.polar r (T.rad p)).tree := by
-    simp [CxNote.tree, toComplex, cartesian?, pyComplex, J.asCx, Obj.find, Obj.put, degreeInPlace]
-  refine ⟨h1, ?_⟩
-  rw [h1]
-  simp [CxNote.tree, h]
+/-- **C17_pure.**  `load_network` leaves *every* argument as it was — valid or malformed, list,
+dictionary or anything else — and so does `to_complex`. -/
+theorem C17_pure : (∀ (T : Trig) (d : J), (loadNetwork T d).2 = d) ∧
+    (∀ (T : Trig) (z : J) (deg : Bool), (toComplex T z deg).2 = z) := by
+  refine ⟨?_, C17_toComplex_pure⟩
+  intro T d
+  cases d with
+  | arr es =>
+    have := loadEntries_post T es
+    simp only [loadNetwork, loadSeq]
+    generalize loadEntries T es = y at this
+    obtain ⟨y1, y2⟩ := y
+    simp only at this; subst this
+    cases y1 <;> simp
+  | _ => simp [loadNetwork]
 
-/-- What a successful load does to the caller's description, exactly: every entry loses
-`type`, `id`, `N1`, `N2`, gains `name`, and keeps its value fields untouched. -/
-theorem C17_mutation_exact (T : Trig) (ps : List Placed) (hk : ∀ p ∈ ps, p.e.kind ≠ "admittance") :
-    (loadNetwork T (.arr (ps.map Placed.tree))).2 = .arr (ps.map Placed.leftover) := by
-  simp only [loadNetwork, loadEntries_faithful T ps hk]
-
-theorem Load.leftover_ne_tree (p : Placed) : p.leftover ≠ p.tree := by
-  obtain ⟨e, id, n1, n2⟩ := p
-  intro h
-  have := congrArg (fun t => match t with | J.obj o => Obj.find o "N1" | _ => none) h
-  cases e with
-  | realCurrentSource I Y =>
-    cases Y <;> simp [Placed.leftover, Placed.tree, NetEntry.tree, NetEntry.fields, optField, Obj.find] at this
-  | realVoltageSource V Z =>
-    cases Z <;> simp [Placed.leftover, Placed.tree, NetEntry.tree, NetEntry.fields, optField, Obj.find] at this
-  | _ => simp [Placed.leftover, Placed.tree, NetEntry.tree, NetEntry.fields, optField, Obj.find] at this
-
-/-- Every non-empty description (over the loadable kinds) is changed by loading it. -/
-theorem C17_pure_counterexample : ¬ C17_pure_statement := by
-  intro ⟨h, _⟩
-  let T : Trig := ⟨fun _ => 1, fun _ => 0, fun _ => 0, fun _ => 0⟩
-  have h1 := h T (.arr ([⟨.resistor (.num 10), "R1", "1", "0"⟩].map Placed.tree))
-  rw [C17_mutation_exact T _ (by decide)] at h1
-  simp only [List.map, J.arr.injEq, List.cons.injEq, and_true] at h1
-  exact leftover_ne_tree _ h1
-
-/-- The strongest purity that does hold: the empty description, `to_complex` without the
-degree option, and the circuit loader (which works on a copy). -/
-theorem C17_pure_partial (T : Trig) :
-    (loadNetwork T (.arr [])).2 = .arr [] ∧
-    (∀ z, (toComplex T z false).2 = z) ∧
-    (∀ c, (generateComponent c).2 = c) := by
-  refine ⟨by simp [loadNetwork, loadEntries, checkLoaded], C17_toComplex_pure_partial T, ?_⟩
-  intro c
-  cases c <;> simp [generateComponent, componentCopied]
-
-/-! ## Loading the same object twice -/
-
-def C17_idempotent_statement : Prop :=
-  ∀ (T : Trig) (d : J), (loadNetwork T (loadNetwork T d).2).1 = (loadNetwork T d).1
-
-theorem Load.entryToBranch_leftover (T : Trig) (p : Placed) :
-    (entryToBranch T p.leftover).1 = .error .keyError := by
-  obtain ⟨e, id, n1, n2⟩ := p
-  cases e with
-  | realCurrentSource I Y => cases Y <;> load_simp
-  | realVoltageSource V Z => cases Z <;> load_simp
-  | _ => load_simp
-
-/-- After any successful load of a non-empty description, loading the *same object* again
-raises `FileExistsError`: the first load consumed `N1`. -/
-theorem C17_second_load_fails (T : Trig) (ps : List Placed) (hne : ps ≠ [])
-    (hk : ∀ p ∈ ps, p.e.kind ≠ "admittance") :
-    (loadNetwork T (loadNetwork T (.arr (ps.map Placed.tree))).2).1 = .error .fileExists := by
-  rw [C17_mutation_exact T ps hk]
-  cases ps with
-  | nil => exact absurd rfl hne
-  | cons p r =>
-    have h := entryToBranch_leftover T p
-    simp only [List.map, loadNetwork, loadEntries]
-    generalize entryToBranch T p.leftover = x at h
-    obtain ⟨x1, x2⟩ := x
-    simp only at h
-    subst h
-    simp [mapLoadErr, loadCaught, loadRaised, errOfName]
-
-theorem C17_idempotent_counterexample : ¬ C17_idempotent_statement := by
-  intro h
-  let T : Trig := ⟨fun _ => 1, fun _ => 0, fun _ => 0, fun _ => 0⟩
-  let ps : List Placed := [⟨.resistor (.num 10), "R1", "1", "0"⟩]
-  have h1 := h T (.arr (ps.map Placed.tree))
-  rw [C17_second_load_fails T ps (by decide) (by decide),
-      C17_faithful_partial T ps ⟨Or.inr ⟨_, List.mem_cons_self .., Or.inr rfl⟩, by decide⟩ (by decide)] at h1
-  cases h1
+/-- **C17_idempotent.**  Loading the same object twice gives equal results. -/
+theorem C17_idempotent (T : Trig) (d : J) :
+    (loadNetwork T (loadNetwork T d).2).1 = (loadNetwork T d).1 := by
+  rw [C17_pure.1 T d]
 
 /-! ## The circuit loader works on a copy -/
 
@@ -347,248 +269,117 @@ theorem C17_circuit_idempotent (c : J) :
 
 /-! ## Round trips through `dump_load` -/
 
-theorem Load.dictifyAllItems_id : (o : List (String × J)) → dictifyAllItems o = o
-  | [] => by simp [dictifyAllItems]
-  | (k, .obj o') :: r => by simp [dictifyAllItems, dictifyAllItems_id o', dictifyAllItems_id r]
-  | (k, .null) :: r => by simp [dictifyAllItems, dictifyAllItems_id r]
-  | (k, .bool _) :: r => by simp [dictifyAllItems, dictifyAllItems_id r]
-  | (k, .num _) :: r => by simp [dictifyAllItems, dictifyAllItems_id r]
-  | (k, .str _) :: r => by simp [dictifyAllItems, dictifyAllItems_id r]
-  | (k, .cx _) :: r => by simp [dictifyAllItems, dictifyAllItems_id r]
-  | (k, .arr _) :: r => by simp [dictifyAllItems, dictifyAllItems_id r]
-
-/-- `dictify_all_complex_values` is the identity on every dictionary: it never converts a
-complex value, at any depth (it also never changes its argument). -/
-theorem C17_dictifyAll_identity (o : Obj) : dictifyAll (.obj o) = (none, .obj o) := by
-  simp [dictifyAll, dictifyAllItems_id]
-
-/-- Full statement (tree level): preparing a document for serialisation yields a plain tree
-from which the inverse conversion recovers the document — for every document that does not
-itself contain a dictionary looking like a complex notation. -/
-def C17_roundtrip_statement : Prop :=
-  ∀ (T : Trig) (o : Obj), InertO o = true →
-    Plain (dictifyAll (.obj o)).2 = true ∧ undictifyAll T (dictifyAll (.obj o)).2 = (none, .obj o)
-
-theorem C17_roundtrip_counterexample : ¬ C17_roundtrip_statement := by
-  intro h
-  have := (h ⟨fun _ => 1, fun _ => 0, fun _ => 0, fun _ => 0⟩ [("a", .cx ⟨1, 2⟩)] (by simp [InertO])).1
-  rw [C17_dictifyAll_identity] at this
-  simp [Plain, PlainO] at this
-
-/-- What reaches the library serialiser is the caller's document itself, complex leaves
-included (`json.dumps` then raises `TypeError`; `yaml.dump` emits a `!!python/complex` tag
-that `yaml.safe_load` refuses). -/
-theorem C17_serialize_passes_complex (dumps : String → J → Except Err String) (o : Obj) (fmt lib : String)
-    (hf : serializers.find? (fun p => p.1 == fmt) = some (fmt, lib)) :
-    (serialize dumps (.obj o) fmt).1 = dumps lib (.obj o) := by
-  simp [serialize, hf, C17_dictifyAll_identity]
-
-theorem Load.undictifyValue_inert (T : Trig) (o : Obj) (h : cxLike o = false) :
+theorem Load.undictifyValue_unlike (T : Trig) (o : Obj) (h : cxLike o = false) :
     undictifyValue T (.obj o) = .ok none := by
   simp only [cxLike, Bool.or_eq_false_iff] at h
   simp [undictifyValue, h.1.1, h.1.2, h.2]
 
-theorem Load.undictifyCx_inert (T : Trig) : (o : List (String × J)) → InertO o = true → undictifyCx T o = (none, o)
-  | [], _ => by simp [undictifyCx]
-  | (k, .obj o') :: r, h => by
-    simp only [InertO, Bool.and_eq_true, Bool.not_eq_true'] at h
-    simp [undictifyCx, undictifyValue_inert T o' h.1.1, undictifyCx_inert T r h.2]
-  | (k, .arr l) :: r, h => by
-    simp only [InertO, Bool.and_eq_true] at h
-    simp [undictifyCx, undictifyValue, undictifyCx_inert T r h.2]
-  | (k, .null) :: r, h => by
-    simp only [InertO] at h; simp [undictifyCx, undictifyValue, undictifyCx_inert T r h]
-  | (k, .bool _) :: r, h => by
-    simp only [InertO] at h; simp [undictifyCx, undictifyValue, undictifyCx_inert T r h]
-  | (k, .num _) :: r, h => by
-    simp only [InertO] at h; simp [undictifyCx, undictifyValue, undictifyCx_inert T r h]
-  | (k, .str _) :: r, h => by
-    simp only [InertO] at h; simp [undictifyCx, undictifyValue, undictifyCx_inert T r h]
-  | (k, .cx _) :: r, h => by
-    simp only [InertO] at h; simp [undictifyCx, undictifyValue, undictifyCx_inert T r h]
-
 mutual
-theorem Load.undictifyAllItems_inert (T : Trig) :
-    (o : List (String × J)) → InertO o = true → undictifyAllItems T o = (none, o)
-  | [], _ => by simp [undictifyAllItems]
-  | (k, .obj o') :: r, h => by
-    simp only [InertO, Bool.and_eq_true, Bool.not_eq_true'] at h
-    simp [undictifyAllItems, undictifyFinish, undictifyAllItems_inert T o' h.1.2, undictifyCx_inert T o' h.1.2,
-      undictifyAllItems_inert T r h.2]
-  | (k, .arr l) :: r, h => by
-    simp only [InertO, Bool.and_eq_true] at h
-    simp [undictifyAllItems, undictifyAllElems_inert T l h.1, undictifyAllItems_inert T r h.2]
-  | (k, .null) :: r, h => by
-    simp only [InertO] at h; simp [undictifyAllItems, undictifyAllItems_inert T r h]
-  | (k, .bool _) :: r, h => by
-    simp only [InertO] at h; simp [undictifyAllItems, undictifyAllItems_inert T r h]
-  | (k, .num _) :: r, h => by
-    simp only [InertO] at h; simp [undictifyAllItems, undictifyAllItems_inert T r h]
-  | (k, .str _) :: r, h => by
-    simp only [InertO] at h; simp [undictifyAllItems, undictifyAllItems_inert T r h]
-  | (k, .cx _) :: r, h => by
-    simp only [InertO] at h; simp [undictifyAllItems, undictifyAllItems_inert T r h]
-theorem Load.undictifyAllElems_inert (T : Trig) :
-    (l : List J) → InertL l = true → undictifyAllElems T l = (none, l)
-  | [], _ => by simp [undictifyAllElems]
-  | .obj o :: r, h => by
-    simp only [InertL, Bool.and_eq_true] at h
-    simp [undictifyAllElems, undictifyFinish, undictifyAllItems_inert T o h.1, undictifyCx_inert T o h.1,
-      undictifyAllElems_inert T r h.2]
-  | .null :: _, h => by simp [InertL] at h
-  | .bool _ :: _, h => by simp [InertL] at h
-  | .num _ :: _, h => by simp [InertL] at h
-  | .str _ :: _, h => by simp [InertL] at h
-  | .cx _ :: _, h => by simp [InertL] at h
-  | .arr _ :: _, h => by simp [InertL] at h
-end
-
-theorem Load.undictifyAll_inert (T : Trig) (o : Obj) (h : InertO o = true) : undictifyAll T (.obj o) = (none, .obj o) := by
-  simp [undictifyAll, undictifyAllObj, undictifyFinish, undictifyAllItems_inert T o h, undictifyCx_inert T o h]
-
-/-- **C17_roundtrip (restriction).**  For every format of the table, every (de)serialiser that
-is lossless on plain trees, and every document — nested to any depth — that is plain (no
-complex leaf), whose lists contain only dictionaries and in which no dictionary value looks
-like a complex notation: what `serialize` writes, `deserialize` reads back unchanged. -/
-theorem C17_roundtrip_partial (T : Trig) (dumps : String → J → Except Err String)
-    (loads : String → String → Except Err J)
-    (hcodec : ∀ (ld ll : String) (t : J) (s : String), Plain t = true → dumps ld t = .ok s → loads ll s = .ok t)
-    (o : Obj) (hp : PlainO o = true) (hi : InertO o = true) (fmt s : String)
-    (hfmt : fmt = "json" ∨ fmt = "yaml" ∨ fmt = "yml")
-    (hs : (serialize dumps (.obj o) fmt).1 = .ok s) :
-    deserialize loads T s fmt = .ok (.obj o) := by
-  have hplain : Plain (.obj o) = true := by simp [Plain, hp]
-  rcases hfmt with rfl | rfl | rfl <;>
-  · simp only [serialize, serializers, deserializers, deserialize, List.find?, C17_dictifyAll_identity] at hs ⊢
-    simp at hs ⊢
-    rw [hcodec _ _ _ _ hplain hs]
-    simp [undictifyAll_inert T o hi]
-
-/-- non-vacuity: a nested document with a list of dictionaries meets the hypotheses -/
-example : PlainO [("a", .num 1), ("l", .arr [.obj [("b", .str "x")]]), ("d", .obj [("real", .num 2)])] = true ∧
-    InertO [("a", .num 1), ("l", .arr [.obj [("b", .str "x")]]), ("d", .obj [("real", .num 2)])] = true := by
-  simp [PlainO, Plain, PlainL, InertO, InertL, cxLike, Obj.keysAre, Obj.has, Obj.find]
-
-/-- A list of scalars — e.g. the `nodes` of a component — stops the conversion with
-`AttributeError` (`.items()` is called on every list element). -/
-theorem C17_undictify_scalar_list_counterexample (T : Trig) :
-    (undictifyAll T (.obj [("nodes", .arr [.str "0", .str "1"])])).1 = some .attributeError := by
-  simp [undictifyAll, undictifyAllObj, undictifyFinish, undictifyAllItems, undictifyAllElems]
-
-/-- The circuit loader does not convert complex notations: a complex impedance written as
-`{"real": 1, "imag": 2}` reaches `ccp.impedance`, whose `Z.real` raises `AttributeError`. -/
-theorem C17_circuit_complex_counterexample :
-    (generateComponent (.obj [("type", .str "impedance"), ("id", .str "Z1"), ("nodes", .arr [.str "0", .str "1"]),
-      ("value", .obj [("Z", (CxNote.cart 1 2).tree)])])).1 = .error .attributeError := by
-  simp [generateComponent, generateComponentObj, compRead, componentReads, Obj.read, Obj.find, Obj.del, circuitComponentTranslators,
-    componentFactories, callCompFactory, Obj.has, bindArgs, bindParams, dupKeys, runGuards, buildValue, VSrc.eval, CxNote.tree]
-
-/-! ## The proposed repair of `dictify_all` / `undictify_all` (not the current code)
-
-The patch proposed in notes/load.md makes both conversions recurse through dictionaries *and*
-lists, convert at every depth, and build new containers.  The theorem below is the round-trip
-statement for that repaired pair — every tree, any nesting — so the proposal is known to meet
-the property before anybody writes it in Python. -/
-
-namespace Load.Repair
-
-mutual
-def dictify : J → J
-  | .cx z => .obj [("real", .num z.re), ("imag", .num z.im)]
-  | .obj o => .obj (dictifyO o)
-  | .arr l => .arr (dictifyL l)
-  | t => t
-def dictifyO : List (String × J) → List (String × J)
-  | [] => []
-  | (k, v) :: r => (k, dictify v) :: dictifyO r
-def dictifyL : List J → List J
-  | [] => []
-  | a :: r => dictify a :: dictifyL r
-end
-
-mutual
-def undictify (T : Trig) : J → J
-  | .obj o =>
-    match undictifyValue T (.obj (undictifyO T o)) with
-    | .ok (some c) => c
-    | _ => .obj (undictifyO T o)
-  | .arr l => .arr (undictifyL T l)
-  | t => t
-def undictifyO (T : Trig) : List (String × J) → List (String × J)
-  | [] => []
-  | (k, v) :: r => (k, undictify T v) :: undictifyO T r
-def undictifyL (T : Trig) : List J → List J
-  | [] => []
-  | a :: r => undictify T a :: undictifyL T r
-end
-
-mutual
-/-- no dictionary anywhere in the tree looks like a complex notation (such a document is
-ambiguous by design and excluded from the property) -/
-def Unambiguous : J → Bool
-  | .obj o => !cxLike o && UnambiguousO o
-  | .arr l => UnambiguousL l
-  | _ => true
-def UnambiguousO : List (String × J) → Bool
-  | [] => true
-  | (_, v) :: r => Unambiguous v && UnambiguousO r
-def UnambiguousL : List J → Bool
-  | [] => true
-  | a :: r => Unambiguous a && UnambiguousL r
-end
-
-mutual
-theorem roundtrip (T : Trig) : (t : J) → Unambiguous t = true → undictify T (dictify t) = t
+theorem Load.roundtrip (T : Trig) : (t : J) → Unambiguous t = true → undictifyAll T (dictifyAll t) = .ok t
   | .cx z, _ => by
     cases z
-    simp [dictify, undictify, undictifyO, undictifyValue, Obj.keysAre, Obj.has, Obj.find, pyComplex, J.asCx, cart_value]
+    simp [dictifyAll, undictifyAll, undictifyAllO, undictifyValue, Obj.keysAre, Obj.has, Obj.find, pyComplex, J.asCx, cart_value]
   | .obj o, h => by
     simp only [Unambiguous, Bool.and_eq_true, Bool.not_eq_true'] at h
-    simp [dictify, undictify, roundtripO T o h.2, undictifyValue_inert T o h.1]
+    simp [dictifyAll, undictifyAll, Load.roundtripO T o h.2, Load.undictifyValue_unlike T o h.1]
   | .arr l, h => by
     simp only [Unambiguous] at h
-    simp [dictify, undictify, roundtripL T l h]
-  | .null, _ => by simp [dictify, undictify]
-  | .bool _, _ => by simp [dictify, undictify]
-  | .num _, _ => by simp [dictify, undictify]
-  | .str _, _ => by simp [dictify, undictify]
-theorem roundtripO (T : Trig) : (o : List (String × J)) → UnambiguousO o = true → undictifyO T (dictifyO o) = o
-  | [], _ => by simp [dictifyO, undictifyO]
+    simp [dictifyAll, undictifyAll, Load.roundtripL T l h]
+  | .null, _ => by simp [dictifyAll, undictifyAll]
+  | .bool _, _ => by simp [dictifyAll, undictifyAll]
+  | .num _, _ => by simp [dictifyAll, undictifyAll]
+  | .str _, _ => by simp [dictifyAll, undictifyAll]
+theorem Load.roundtripO (T : Trig) :
+    (o : List (String × J)) → UnambiguousO o = true → undictifyAllO T (dictifyAllO o) = .ok o
+  | [], _ => by simp [dictifyAllO, undictifyAllO]
   | (k, v) :: r, h => by
     simp only [UnambiguousO, Bool.and_eq_true] at h
-    simp [dictifyO, undictifyO, roundtrip T v h.1, roundtripO T r h.2]
-theorem roundtripL (T : Trig) : (l : List J) → UnambiguousL l = true → undictifyL T (dictifyL l) = l
-  | [], _ => by simp [dictifyL, undictifyL]
+    simp [dictifyAllO, undictifyAllO, Load.roundtrip T v h.1, Load.roundtripO T r h.2]
+theorem Load.roundtripL (T : Trig) :
+    (l : List J) → UnambiguousL l = true → undictifyAllL T (dictifyAllL l) = .ok l
+  | [], _ => by simp [dictifyAllL, undictifyAllL]
   | a :: r, h => by
     simp only [UnambiguousL, Bool.and_eq_true] at h
-    simp [dictifyL, undictifyL, roundtrip T a h.1, roundtripL T r h.2]
+    simp [dictifyAllL, undictifyAllL, Load.roundtrip T a h.1, Load.roundtripL T r h.2]
 end
 
 mutual
-theorem dictify_plain : (t : J) → Plain (dictify t) = true
-  | .cx _ => by simp [dictify, Plain, PlainO]
-  | .obj o => by simp [dictify, Plain, dictifyO_plain o]
-  | .arr l => by simp [dictify, Plain, dictifyL_plain l]
-  | .null => by simp [dictify, Plain]
-  | .bool _ => by simp [dictify, Plain]
-  | .num _ => by simp [dictify, Plain]
-  | .str _ => by simp [dictify, Plain]
-theorem dictifyO_plain : (o : List (String × J)) → PlainO (dictifyO o) = true
-  | [] => by simp [dictifyO, PlainO]
-  | (k, v) :: r => by simp [dictifyO, PlainO, dictify_plain v, dictifyO_plain r]
-theorem dictifyL_plain : (l : List J) → PlainL (dictifyL l) = true
-  | [] => by simp [dictifyL, PlainL]
-  | a :: r => by simp [dictifyL, PlainL, dictify_plain a, dictifyL_plain r]
+theorem Load.dictifyAll_plain : (t : J) → Plain (dictifyAll t) = true
+  | .cx _ => by simp [dictifyAll, Plain, PlainO]
+  | .obj o => by simp [dictifyAll, Plain, Load.dictifyAllO_plain o]
+  | .arr l => by simp [dictifyAll, Plain, Load.dictifyAllL_plain l]
+  | .null => by simp [dictifyAll, Plain]
+  | .bool _ => by simp [dictifyAll, Plain]
+  | .num _ => by simp [dictifyAll, Plain]
+  | .str _ => by simp [dictifyAll, Plain]
+theorem Load.dictifyAllO_plain : (o : List (String × J)) → PlainO (dictifyAllO o) = true
+  | [] => by simp [dictifyAllO, PlainO]
+  | (k, v) :: r => by simp [dictifyAllO, PlainO, Load.dictifyAll_plain v, Load.dictifyAllO_plain r]
+theorem Load.dictifyAllL_plain : (l : List J) → PlainL (dictifyAllL l) = true
+  | [] => by simp [dictifyAllL, PlainL]
+  | a :: r => by simp [dictifyAllL, PlainL, Load.dictifyAll_plain a, Load.dictifyAllL_plain r]
 end
 
-end Load.Repair
+/-- **C17_roundtrip.**  For every unambiguous tree — complex leaves anywhere, in dictionaries and
+in lists, scalars in lists, any depth — `dictify_all_complex_values` yields a plain tree (which a
+serialiser can carry) and `undictify_all_complex_values` recovers the tree exactly. -/
+theorem C17_roundtrip (T : Trig) (t : J) (h : Unambiguous t = true) :
+    Plain (dictifyAll t) = true ∧ undictifyAll T (dictifyAll t) = .ok t :=
+  ⟨Load.dictifyAll_plain t, Load.roundtrip T t h⟩
 
-/-- **C17_roundtrip for the proposed repair**: for every unambiguous tree — complex leaves
-anywhere, in dictionaries and in lists, scalars in lists, any depth — the repaired `dictify`
-yields a plain tree (so any lossless serialiser carries it) and the repaired `undictify`
-recovers the tree exactly. -/
-theorem C17_roundtrip_repaired (T : Trig) (t : J) (h : Load.Repair.Unambiguous t = true) :
-    Plain (Load.Repair.dictify t) = true ∧ Load.Repair.undictify T (Load.Repair.dictify t) = t :=
-  ⟨Load.Repair.dictify_plain t, Load.Repair.roundtrip T t h⟩
+/-- …and through `serialize` / `deserialize`, for every format of the table and every
+(de)serialiser that is lossless on plain trees. -/
+theorem C17_roundtrip_codec (T : Trig) (dumps : String → J → Except Err String)
+    (loads : String → String → Except Err J)
+    (hcodec : ∀ (ld ll : String) (t : J) (s : String), Plain t = true → dumps ld t = .ok s → loads ll s = .ok t)
+    (t : J) (hu : Unambiguous t = true) (fmt s : String)
+    (hfmt : fmt = "json" ∨ fmt = "yaml" ∨ fmt = "yml")
+    (hs : serialize dumps t fmt = .ok s) :
+    deserialize loads T s fmt = .ok t := by
+  rcases hfmt with rfl | rfl | rfl <;>
+  · simp only [serialize, serializers, deserializers, deserialize, List.find?] at hs ⊢
+    simp at hs ⊢
+    rw [hcodec _ _ _ _ (Load.dictifyAll_plain t) hs]
+    simp [Load.roundtrip T t hu]
+
+/-- non-vacuity: complex leaves in a dictionary and in a list, a list of scalars, nesting -/
+example : Unambiguous (.obj [("a", .cx ⟨1, 2⟩), ("nodes", .arr [.str "0", .str "1"]),
+    ("l", .arr [.cx ⟨0, 1⟩, .obj [("b", .cx ⟨3, 4⟩)]]), ("d", .obj [("real", .num 2)])]) = true := by
+  simp [Unambiguous, UnambiguousO, UnambiguousL, cxLike, Obj.keysAre, Obj.has, Obj.find]
+
+/-- The former failing inputs: a complex leaf is converted before serialisation … -/
+theorem C17_dictify_converts (z : GQ) (k : String) :
+    dictifyAll (.obj [(k, .cx z)]) = .obj [(k, .obj [("real", .num z.re), ("imag", .num z.im)])] := by
+  simp [dictifyAll, dictifyAllO]
+
+/-- … and a list of scalars passes through the inverse conversion untouched. -/
+theorem C17_undictify_scalar_list (T : Trig) :
+    undictifyAll T (.obj [("nodes", .arr [.str "0", .str "1"])]) = .ok (.obj [("nodes", .arr [.str "0", .str "1"])]) := by
+  simp [undictifyAll, undictifyAllO, undictifyAllL, undictifyValue, Obj.keysAre, Obj.has, Obj.find]
+
+/-- A circuit *file* may carry a complex value in either notation: the conversion turns the
+notation into the number, and `ccp.impedance` then stores its real and imaginary part. -/
+theorem C17_circuit_complex (T : Trig) (n : CxNote) (hn : ∀ r p, n = .polar r p → ¬ r < 0) :
+    (match undictifyAll T (.obj [("components", .arr [.obj [("type", .str "impedance"), ("id", .str "Z1"),
+          ("nodes", .arr [.str "0", .str "1"]), ("value", .obj [("Z", n.tree)])]])]) with
+     | .ok t => (undictifyCircuit t).1
+     | .error e => .error e)
+    = .ok { components := [{ ty := "impedance", id := .str "Z1", nodes := .arr [.str "0", .str "1"],
+                             value := [("R", .num (n.denote T).re), ("X", .num (n.denote T).im)] }],
+            ground := .str "0" } := by
+  cases n with
+  | cart a b =>
+    simp [CxNote.tree, CxNote.denote, undictifyAll, undictifyAllO, undictifyAllL, undictifyValue, Obj.keysAre, Obj.has, Obj.find,
+      pyComplex, J.asCx, cart_value, undictifyCircuit, genComponents, generateComponent, generateComponentObj, compRead,
+      componentReads, componentCopied, Obj.read, Obj.del, circuitComponentTranslators, componentFactories, callCompFactory,
+      bindArgs, bindParams, dupKeys, runGuards, buildValue, VSrc.eval, mkCircuit, firstNode, dedupL]
+    rfl
+  | polar r p =>
+    have hr := hn r p rfl
+    simp [CxNote.tree, CxNote.denote, undictifyAll, undictifyAllO, undictifyAllL, undictifyValue, Obj.keysAre, Obj.has, Obj.find,
+      absFactor, hr, polar_value, undictifyCircuit, genComponents, generateComponent, generateComponentObj, compRead,
+      componentReads, componentCopied, Obj.read, Obj.del, circuitComponentTranslators, componentFactories, callCompFactory,
+      bindArgs, bindParams, dupKeys, runGuards, buildValue, VSrc.eval, mkCircuit, firstNode, dedupL]
+    rfl
 
 end CC
